@@ -81,7 +81,10 @@ macro_rules! bytes_r2 {
                         let mut k = 0;
                         while k < $w { e[k] = m.get(h, o + k); k += 1; }
                         let want: Value = ($dec)(e);
-                        assert!(rd.ok().map(|v| v.raw_bits()) == Some(want.raw_bits()));
+                        let got = rd.ok();
+                        assert!(got.map(|v| v.raw_bits()) == Some(want.raw_bits()));
+                        // whatever the bytes were, what comes back is a number and nothing else (no forged reference out of raw memory)
+                        assert!(got.map(|v| (v.is_int() ^ v.is_float()) && !v.is_ptr() && !v.is_bool() && !v.is_null()) == Some(true));
                     }
                     None => assert!(rd.is_err()),
                 }
